@@ -1002,6 +1002,12 @@ class ReaderExtractor:
         for c in conj:
             if isinstance(c, ast.Name):
                 continue            # `next_header and ...`
+            if isinstance(c, ast.Compare) and len(c.ops) == 1 and isinstance(c.ops[0], ast.IsNot) and isinstance(c.left, ast.Name) and \
+                    isinstance(c.comparators[0], ast.Constant) and c.comparators[0].value is None:
+                continue            # `next_header is not None and ...`
+            if isinstance(c, ast.Call) and isinstance(c.func, ast.Name) and c.func.id == "isinstance" and len(c.args) == 2 and norm(c.args[0]).endswith(".tag") and \
+                    norm(c.args[1]).split(".")[-1] == "ASN1Tag":
+                continue            # `isinstance(h.tag, ASN1Tag)` (what a class pattern of a match statement tests first)
             if isinstance(c, ast.Compare) and len(c.ops) == 1 and isinstance(c.ops[0], ast.Eq):
                 l, r_ = c.left, c.comparators[0]
                 lt = norm(l)
@@ -1038,7 +1044,17 @@ class ReaderExtractor:
             parts = [self._region_of(v, st, hv) for v in t.values]
             if any(p_ is None for p_ in parts):
                 # `h and <tests>`: a bare header name is always true here
-                parts = [p_ for p_, v in zip(parts, t.values) if not (p_ is None and isinstance(v, ast.Name) and v.id == hv)]
+                def _always(v: ast.expr) -> bool:
+                    if isinstance(v, ast.Name) and v.id == hv:
+                        return True
+                    if isinstance(v, ast.Compare) and len(v.ops) == 1 and isinstance(v.ops[0], ast.IsNot) and isinstance(v.left, ast.Name) and v.left.id == hv and \
+                            isinstance(v.comparators[0], ast.Constant) and v.comparators[0].value is None:
+                        return True
+                    if isinstance(v, ast.Call) and isinstance(v.func, ast.Name) and v.func.id == "isinstance" and len(v.args) == 2 and norm(v.args[0]) == hv + ".tag" and \
+                            norm(v.args[1]).split(".")[-1] == "ASN1Tag":
+                        return True
+                    return False
+                parts = [p_ for p_, v in zip(parts, t.values) if not (p_ is None and _always(v))]
                 if any(p_ is None for p_ in parts) or not parts:
                     return None
             if isinstance(t.op, ast.And):
@@ -1303,12 +1319,26 @@ class ReaderExtractor:
                 if isinstance(n.ctx, ast.Load) and n.id in sub:
                     return copy.deepcopy(sub[n.id])
                 return n
+        guards: List[ast.expr] = []
         for b in body[:-1]:
             if isinstance(b, ast.Assign) and len(b.targets) == 1 and isinstance(b.targets[0], ast.Name):
                 sub[b.targets[0].id] = Sub().visit(copy.deepcopy(b.value))
+            elif isinstance(b, ast.If) and not b.orelse and len(b.body) == 1 and isinstance(b.body[0], ast.Return) and \
+                    isinstance(b.body[0].value, ast.Constant) and b.body[0].value.value is False:
+                # `if G: return False` before the final return: the predicate holds only when G does not
+                g = Sub().visit(copy.deepcopy(b.test))
+                if isinstance(g, ast.UnaryOp) and isinstance(g.op, ast.Not):
+                    guards.append(g.operand)
+                elif isinstance(g, ast.Compare) and len(g.ops) == 1 and isinstance(g.ops[0], ast.Is) and isinstance(g.comparators[0], ast.Constant) and g.comparators[0].value is None:
+                    guards.append(ast.Compare(left=g.left, ops=[ast.IsNot()], comparators=g.comparators))
+                else:
+                    guards.append(ast.UnaryOp(op=ast.Not(), operand=g))
             else:
                 return [c]
         e = Sub().visit(copy.deepcopy(body[-1].value))
+        if guards:
+            e = ast.BoolOp(op=ast.And(), values=guards + (e.values if isinstance(e, ast.BoolOp) and isinstance(e.op, ast.And) else [e]))
+            ast.copy_location(e, c)
         ast.fix_missing_locations(e)
         parts = e.values if isinstance(e, ast.BoolOp) and isinstance(e.op, ast.And) else [e]
         return [x for p_ in parts for x in self._inline_predicate(p_, st, depth + 1)]
